@@ -713,7 +713,35 @@ theorem quiescent_is_spec (s0 : Sys n) (h0 : Safe s0) (as : List (Act n)) (hidle
   rw [this]
   exact ⟨hpc, hspec⟩
 
+/-! ### a failed Modify is reported -/
+
+/-- **C06 (retry).** A pass in which the Modify of an input failed for an outside reason — the transform function
+    returned an error, a write inside it was refused, a conflict on a companion output — records an error (the pass
+    ends with `multiErr`, the controller is restarted and the input is transformed again). The one error the loop
+    skips is a phase conflict on the mapped output itself: the test is qualified by that output's namespace and type
+    (`Gen.Ctrl.conflictSkipQualified`); with an unqualified test a conflict on any resource is swallowed and nothing
+   retries the input. -/
+theorem failed_modify_is_reported {n : Nat} (s : Sys n) (k : Fin n) (after : Bool) (rest : List (Fin n × AIn)) (c : Choice)
+    (hpc : s.pc = .modify k after rest) (hf : c.fail = true) : (ctlWith genRules s c).errs = true := by
+  unfold ctlWith
+  rw [hpc]
+  simp [hf, Gen.Ctrl.conflictSkipQualified]
+
+/-- errors recorded earlier in the pass are kept by a failing Modify -/
+theorem failed_modify_keeps_errors {n : Nat} (r : Rules) (s : Sys n) (k : Fin n) (after : Bool) (rest : List (Fin n × AIn))
+    (c : Choice) (hpc : s.pc = .modify k after rest) (hf : c.fail = true) (he : s.errs = true) :
+    (ctlWith r s c).errs = true := by
+  unfold ctlWith
+  rw [hpc]
+  simp [hf, he]
+
 /-! ### non-vacuity -/
+
+/-- a pass over one running input whose Modify fails: the error is recorded -/
+example :
+    let s : Sys 1 := { inp := fun _ => some ⟨.running, true, false⟩, out := fun _ => none }
+    let s1 := ctlWith genRules (ctlWith genRules s {}) {}
+    s1.pc = .modify 0 false [] ∧ (ctlWith genRules s1 { fail := true }).errs = true := by decide
 
 example : quietSafe (some ⟨.running, false, false⟩) none = true := by decide
 example : specOk (some ⟨.running, false, false⟩) none = false := by decide
